@@ -45,6 +45,8 @@ def facts : Facts :=
     wrapFrameIsDefTypes := true,
     wrapFramePerCall := true,
     wrapRecvAtCreation := true,
+    wrapRecvHeldAtCall := true,
+    ifaceWrapRecvHeld := true,
     getFuncFramePerCall := true,
     wrapArgBase := .base,
     wrapRcvrShift := 1,
@@ -57,10 +59,10 @@ def facts : Facts :=
 /-- fingerprints (extract/common FuncHash) of the functions Model/Boundary.lean was transcribed from -/
 def sourceHashes : List (String × String) :=
   [("callBin", "ba3c7c394daa2733"),
-   ("genFunctionWrapper", "d3025d79ab731dcf"),
-   ("getFunc", "e1777a5459c1a52e"),
+   ("genFunctionWrapper", "033ce6ccd17871ac"),
+   ("getFunc", "767f1bf470b0d0fd"),
    ("call", "13deaf5e1d58559d"),
-   ("genInterfaceWrapper", "c81bdaf729e4a071"),
+   ("genInterfaceWrapper", "3467ccc00694c19f"),
    ("methodByName", "cf343e4f55a358c1"),
    ("getFrame", "48dc117bdbd1af33"),
    ("callVariadic", "a136ff7434f20d7e"),
@@ -76,7 +78,10 @@ def sourceHashes : List (String × String) :=
    ("getBinValue", "f0affea075ce67fd"),
    ("genValueArray", "7423f6a50d5d826f"),
    ("genValue", "831b100a10664633"),
-   ("Interpreter.Execute", "eaf1129b747c09aa"),
+   ("genValueRecv", "a3dad7fc975e9eb7"),
+   ("Interpreter.Execute", "19fb5462ea693d28"),
+   ("newCallFrame", "43aa5e7f13021a5b"),
+   ("newFrame", "da1db819d5067f56"),
    ("Interpreter.Symbols", "38f5e077316d112e"),
    ("getWrapper", "1311018b7c7efb25"),
    ("Interpreter.Use", "4e42634dd7e03d36"),
@@ -105,6 +110,18 @@ def sourceHashes : List (String × String) :=
     * 312e281: callBin's goStmt arm copies the function value (when addressable) and the arguments with copyDeferArg before
       `go callFn(fn, in)` — not transcribed (no aliasing in the model; goroutines are C08's subject);
     * 16a5ac7: genValueInterface boxes a COPY of an addressable value — the model's `vi` box holds a datum, never a variable;
+    * 32d4f06 (reviewed against genFunctionWrapper d3025d79ab731dcf, genInterfaceWrapper c81bdaf729e4a071): the receiver code of
+      genFunctionWrapper moves into the closure bindRecv; `late = n.recv.node == nil`; a late receiver is reached inside the
+      MakeFunc literal (`case late: d[numRet].Set(bindRecv())`), every other one still outside (`if rcvr != nil && !late`);
+      genInterfaceWrapper gives its method wrappers `&receiver{val: rv, index: …}` with `rv := copyDeferArg(valueInterfaceValue(v))`
+      (facts `wrapRecvHeldAtCall`, `ifaceWrapRecvHeld`); genValueRecv (now fingerprinted) returns `n.recv.val` for such a record;
+    * 4a41b28 + 1578873 (against getFunc e1777a5459c1a52e, Interpreter.Execute eaf1129b747c09aa): the frame of an invocation is
+      `newCallFrame(anc, length)` = newFrame with the run id and the cancellation channel of the ROOT frame (interp/interp.go,
+      fingerprinted with newFrame) instead of `newFrame(anc, length, anc.runid())`; Execute refreshes the root run id when it
+      returns. Run ids and cancellation are not modelled (the frame is still allocated per call: `wrapFramePerCall`,
+      `getFuncFramePerCall`);
+    * d26dd9e: getFunc no longer restores the literal's frame slot after each call (`o := …` and the epilogue removed) — the
+      model's closureCall never had that step; cc65000: Execute no longer sets interp.cancelChan;
     * db2d0c1 (reviewed before, C02 F02-5): `call` skips a zero-valued argument only when its type differs from the
       parameter's; arguments of the parameter's type are always copied (what the model assumes for every argument);
     * 215471a / 2e388d6: runCfg's deferred loop calls runDeferred (own recover) with the frame lock released. -/
